@@ -29,6 +29,10 @@ type Config struct {
 	// Stubs redirects calls: full function name (ssa Function.String()) ->
 	// replacement function name in the harness package.
 	Stubs map[string]string
+	// Pinned fixes every harness input to a model value (concrete
+	// re-execution of a counterexample); PinnedUF likewise for UF points.
+	Pinned   map[string][]string
+	PinnedUF map[string][][]string
 	// NoOps lists function-name prefixes whose calls return zero values.
 	NoOps []string
 	// DropGo lists functions whose `go` statements are ignored.
